@@ -135,6 +135,15 @@ class Sim:
     def aux(self, build=None):
         build = build or self.world.build
         p = os.path.join(build, '.bfg_find_deps')
+        # a left-over file that the build file no longer reads (a script
+        # whose searches were all deleted) is nobody's input
+        try:
+            with open(os.path.join(build, self.buildfile),
+                      errors='surrogateescape') as f:
+                if '.bfg_find_deps' not in f.read():
+                    return None
+        except (FileNotFoundError, TypeError):
+            pass
         try:
             with open(p) as f:
                 return parse_find_deps(f.read())
